@@ -230,11 +230,12 @@ func (p *Proof) VerifyWithChallenge(pk *gabikeys.PublicKey, reconstructedChallen
 	if (*proof)(p).ProofResult("alpha").Cmp(Parameters.bTwoZk) > 0 {
 		return false
 	}
-	// C_r and C_u are bases of the relations that are verified: they have to be elements of
-	// the group. If one of them is zero modulo N (or not invertible) every reconstructed
+	// C_r and C_u are bases of the relations that are verified: they have to be invertible
+	// modulo N. If one of them is zero modulo N (or not invertible) every reconstructed
 	// commitment is zero whatever the responses are, so that no witness would be needed.
+	// They need not be reduced: ProofCommit.Update leaves C_u = u * h^r2 unreduced.
 	for _, c := range []*big.Int{p.Cr, p.Cu} {
-		if c.Sign() <= 0 || c.Cmp(pk.N) >= 0 || new(big.Int).GCD(nil, nil, c, pk.N).Cmp(big.NewInt(1)) != 0 {
+		if c.Sign() <= 0 || new(big.Int).GCD(nil, nil, c, pk.N).Cmp(big.NewInt(1)) != 0 {
 			return false
 		}
 	}
